@@ -1,6 +1,8 @@
 // Conformance driver for celma::format::TextBlock  (property C17).
 //   textblock_driver --script FILE                          replay of TLC-generated action sequences
 //   textblock_driver --random --seed S --cases K --texts M   random texts
+//   textblock_driver --text T --indent I --width W --first 0|1 [--show]   one call (\n in T = newline); --show also
+//                                                           prints the output to stderr with '.' for blanks
 // Output: ndjson trace on stdout (see specs/textblock/TraceTextBlock.tla for the event format).
 // The driver only records: constructor arguments, the text passed to format() and the bytes format()
 // wrote.  It neither splits the output nor computes any expected layout.
@@ -151,6 +153,20 @@ int main(int argc, char** argv) {
          }
          const std::string text = renderText(lines);
          if (done.insert(cfgKey + text).second) s.format(text);
+      }
+   } else if (const char* t = vh::arg(argc, argv, "--text")) {
+      std::string text;
+      for (const char* p = t; *p; ++p) {
+         if (p[0] == '\\' && p[1] == 'n') { text.push_back('\n'); ++p; } else text.push_back(*p);
+      }
+      s.reset(vh::argnum(argc, argv, "--indent", 0), vh::argnum(argc, argv, "--width", 80), vh::argnum(argc, argv, "--first", 1) != 0);
+      s.format(text);
+      if (vh::flag(argc, argv, "--show")) {
+         std::ostringstream os;
+         s.tb->format(os, text);
+         std::string o = os.str();
+         for (char& ch : o) if (ch == ' ') ch = '.';
+         fprintf(stderr, "%s\n", o.c_str());
       }
    } else {
       vh::Rng rng(static_cast<uint64_t>(vh::argnum(argc, argv, "--seed", 1)));
